@@ -5,7 +5,7 @@ IDS=${@:-C01 C02 C03 C04 C05 C06 C07 C08 C09 C10 C11 C12 C13 C14 C15 C16 C17 C18
 mkdir -p /tmp/allrun-$TIER
 for ID in $IDS; do
   S=$(date +%s)
-  (cd /verif && ./verify $ID --tier $TIER > /tmp/allrun-$TIER/$ID.log 2>&1; echo "rc=$?" >> /tmp/allrun-$TIER/$ID.log)
+  (cd /verif && ./verify $ID --tier $TIER ${JOBS:+--jobs $JOBS} > /tmp/allrun-$TIER/$ID.log 2>&1; echo "rc=$?" >> /tmp/allrun-$TIER/$ID.log)
   E=$(date +%s)
   echo "$ID $(tail -1 /tmp/allrun-$TIER/$ID.log) wall=$((E-S))s $(grep -c '^INCONCLUSIVE' /tmp/allrun-$TIER/$ID.log) inconclusive, $(grep -c '^HARNESS-ERROR' /tmp/allrun-$TIER/$ID.log) harness errors, $(grep -c '^VIOLATION' /tmp/allrun-$TIER/$ID.log) violations" >> /tmp/allrun-$TIER/SUMMARY.txt
 done
